@@ -104,6 +104,65 @@ def comparison(e, param_id):
     return c_unescape(lit.get("value", ""))
 
 
+REPO = [None]
+
+
+def table_words(name):
+    """the string literals of a namespace-scope constant array of narrow strings, in order"""
+    docs = clang_ast(REPO[0], "src/options/toggle.cpp", name)
+    vs = [d for d in docs if d.get("kind") == "VarDecl" and d.get("name") == name]
+    if len(vs) != 1:
+        raise Unreadable("%d declarations of table %s" % (len(vs), name))
+    ty = (vs[0].get("type") or {}).get("qualType", "")
+    if "const" not in ty:
+        raise Unreadable("table %s is not constant (%s)" % (name, ty))
+    init = [c for c in inner(vs[0]) if c.get("kind") == "InitListExpr"]
+    if len(init) != 1:
+        raise Unreadable("table %s has no initialiser list" % name)
+    words = []
+    for x in inner(init[0]):
+        x = strip(x)
+        while x.get("kind") in ("CXXConstructExpr",) and len(inner(x)) == 1:
+            x = strip(inner(x)[0])
+        if x.get("kind") != "StringLiteral":
+            raise Unreadable("table %s holds a %s" % (name, x.get("kind")))
+        words.append(c_unescape(x.get("value", "")))
+    return words
+
+
+def helper_is_membership(fname):
+    """the helper F(word, table) must be exactly `return std::find(std::begin(table), std::end(table), word) != std::end(table);`"""
+    src = open(os.path.join(REPO[0], "src/options/toggle.cpp"), "rb").read().decode("latin-1")
+    src = re.sub(r"/\*.*?\*/", " ", src, flags=re.S)
+    src = re.sub(r"//[^\n]*", " ", src)
+    m = re.findall(r"\bbool\s+" + re.escape(fname) + r"\s*\(\s*const\s+std::string\s*&\s*(\w+)\s*,\s*const\s+char\s*\*\s*const\s*\(\s*&\s*(\w+)\s*\)\s*\[\s*\w+\s*\]\s*\)\s*\{(.*?)\}", src, flags=re.S)
+    if len(m) != 1:
+        raise Unreadable("helper %s: %d definitions of the expected signature" % (fname, len(m)))
+    w, t, body = m[0]
+    body = " ".join(body.split())
+    pat = (r"return std::find ?\( ?std::begin ?\( ?%s ?\) ?, ?std::end ?\( ?%s ?\) ?, ?%s ?\) ?!= ?std::end ?\( ?%s ?\) ?;"
+           % (re.escape(t), re.escape(t), re.escape(w), re.escape(t)))
+    if not re.fullmatch(pat, body):
+        raise Unreadable("helper %s is not a plain membership test: %s" % (fname, body[:80]))
+
+
+def membership(e, param_id):
+    """F(env_value, TABLE) with F a plain membership helper -> the table's words"""
+    parts = inner(e)
+    if len(parts) != 3:
+        raise Unreadable("call with %d parts" % len(parts))
+    callee, a, b = strip(parts[0]), strip(parts[1]), strip(parts[2])
+    fname = (callee.get("referencedDecl") or {}).get("name")
+    if not fname:
+        raise Unreadable("condition leaf calls an unnamed function")
+    if a.get("kind") != "DeclRefExpr" or (a.get("referencedDecl") or {}).get("id") != param_id:
+        raise Unreadable("first argument of %s is not the parameter" % fname)
+    if b.get("kind") != "DeclRefExpr" or (b.get("referencedDecl") or {}).get("kind") != "VarDecl":
+        raise Unreadable("second argument of %s is not a table" % fname)
+    helper_is_membership(fname)
+    return table_words((b.get("referencedDecl") or {}).get("name"))
+
+
 def disjunction(e, param_id):
     e = strip(e)
     if e.get("kind") == "BinaryOperator":
@@ -111,6 +170,8 @@ def disjunction(e, param_id):
             raise Unreadable("operator %s in condition" % e.get("opcode"))
         l, r = inner(e)
         return disjunction(l, param_id) + disjunction(r, param_id)
+    if e.get("kind") == "CallExpr":
+        return membership(e, param_id)
     return [comparison(e, param_id)]
 
 
@@ -130,6 +191,7 @@ def returned_bool(stmt):
 
 
 def read_clauses(repo):
+    REPO[0] = repo
     docs = clang_ast(repo, "src/options/toggle.cpp", "parse_env_value")
     defs = [d for d in docs if d.get("kind") == "CXXMethodDecl" and any(c.get("kind") == "CompoundStmt" for c in inner(d))]
     if len(defs) != 1:
